@@ -18,9 +18,26 @@ SELECTORS = ["pT", "rapidity", "pseudorapidity"]
 
 
 # ------------------------------------------------------------------ real code
+_OBJ = {}
+_NEW = [0]
+
+
 def qc(n, k, imag):
+    """every second request is served by a long-lived estimator object (state leaking between calls must show)"""
     from sparkx.flow.QCumulantFlow import QCumulantFlow
+    _NEW[0] += 1
+    if _NEW[0] % 2 == 0:
+        return _OBJ.setdefault((n, k, imag), QCumulantFlow(n=n, k=k, imaginary=imag))
     return QCumulantFlow(n=n, k=k, imaginary=imag)
+
+
+def real_fc(k, imag, c):
+    return float(qc(2, k, imag)._QCumulantFlow__flow_from_cumulant(c))
+
+
+def real_dfc(k, imag, c, d):
+    v = qc(2, k, imag)._QCumulantFlow__flow_from_cumulant_differential(c, d)
+    return float(np.real(v))
 
 
 def real_corr(phis, n, k):
@@ -202,6 +219,16 @@ def correspond(ctx):
                 "without POI in the bin; distinct by canonical input")
     N = ctx.n(70, 1500)
     lines, meta = [], []
+    # the two decision functions alone: every k x imaginary mode x sign of the cumulant (and of d)
+    for k in (2, 4, 6):
+        for imag in IMAG:
+            for c in (0.04, -0.04, 0.0, rng.uniform(0.001, 0.3), -rng.uniform(0.001, 0.3)):
+                lines.append(f"fc\t{k}\t{imag}\t{f2h(c)}")
+                meta.append(("fc", 2, k, imag, c))
+                if k in (2, 4) and c != 0.0:
+                    for d in (0.01, -0.02):
+                        lines.append(f"dfc\t{k}\t{imag}\t{f2h(c)}\t{f2h(d)}")
+                        meta.append(("dfc", 2, k, imag, (c, d)))
     for i in range(N):
         r = rng.random()
         if r < 0.35:
@@ -229,6 +256,15 @@ def correspond(ctx):
     outs = common.run_driver("C11", lines)
     for (op, n, k, imag, data), out in zip(meta, outs):
         kind, val = parse_ok(out)
+        if op in ("fc", "dfc"):
+            rv = real_fc(k, imag, data) if op == "fc" else real_dfc(k, imag, *data)
+            ok = (kind == "nan" and rv != rv) or (kind == "val" and close(rv, val, rel=1e-12, abs_=1e-15))
+            ctx.case((op, k, imag, data), True, sample=dict(op=op, k=k, imaginary=imag, args=data, code=rv, model=out))
+            ctx.count(f"{op}/k={k}/{imag}")
+            if not ok:
+                ctx.brk("correspondence-broken", f"{op} k={k} imaginary={imag} args={data}: code {rv!r} vs model {out}",
+                        case=dict(op=op, k=k, imaginary=imag, args=data))
+            continue
         if op == "corr":
             rv = real_corr(data, n, k)
             ok = kind == "val" and close(rv, val, rel=1e-8, abs_=1e-10)
@@ -327,6 +363,29 @@ def search(ctx, budget_s):
             ctx.violation(f"selector-{sel}", f"differential_flow rejects the documented selector {sel!r}: {type(e).__name__}: {e}",
                           dict(input=dict(selector=sel)))
     limit = 3000 if ctx.thorough else 60
+    # stratified: every k x imaginary mode must be seen with both signs of the cumulant
+    need = {(k, im, sg) for k in (2, 4, 6) for im in IMAG for sg in (-1, 1)}
+    tries = 0
+    while need and tries < 400 and time.time() - t0 < budget_s:
+        tries += 1
+        k, im, sg = sorted(need)[tries % len(need)]
+        n = rng.randint(1, 3)
+        phis = gen_phis(rng, k, nev_max=2, mmax=7 if k == 6 else 8, flowy=rng.choice([0.0, 0.4]))
+        _, v = brute_like_sign(phis, n, k)
+        if abs(v) < 1e-6 or (v > 0) != (sg > 0):
+            continue
+        need.discard((k, im, sg))
+        n_cases += 1
+        r = check_integrated(phis, n, k, im)
+        ctx.case(("oracle-int-strat", n, k, im, tuple(map(tuple, phis))), True)
+        ctx.count(f"oracle-int/k={k}/{im}/{'neg' if sg < 0 else 'pos'}")
+        if r:
+            ctx.violation(r[0] + f"-{im}-{'neg' if sg < 0 else 'pos'}", r[1],
+                          dict(input=dict(kind="integrated", n=n, k=k, imaginary=im, phis=phis), detail=r[2]))
+            need.clear()
+            ctx.cov["oracle_cases"] = n_cases
+            return
+    ctx.cov["strata_not_reached"] = sorted(map(list, need))
     while time.time() - t0 < budget_s and n_cases < limit:
         n_cases += 1
         if rng.random() < 0.5:
